@@ -801,6 +801,20 @@ class Extractor {
             o["mangled_all"] = std::move(ms);
         }
         o["invalid"] = FD->isInvalidDecl();
+        {
+            // an instantiated body that kept going after an error carries RecoveryExpr / error-flagged expressions
+            struct ErrFinder: public RecursiveASTVisitor<ErrFinder> {
+                bool found = false;
+                bool VisitExpr(Expr* E)
+                {
+                    if (E->containsErrors()) found = true;
+                    return !found;
+                }
+                bool shouldVisitTemplateInstantiations() const { return true; }
+            } EF;
+            EF.TraverseStmt(const_cast<Stmt*>(Body));
+            o["recovery"] = EF.found;
+        }
         o["access"] = accessStr(FD->getAccess());
         o["is_instantiation"] = FD->isTemplateInstantiation();
         if (auto* TA = FD->getTemplateSpecializationArgs()) {
